@@ -171,10 +171,18 @@ def k_general(run, case):
             arr["p"][k, PLANES[plane]] = 0.0
             planar[k] = True
             headings[k] = h
+    u = rng.random()
+    sub = "general 3-D"
+    if u < .2:  # ground-vehicle like: positions already in the plane, attitudes with roll/pitch
+        arr["p"][:, PLANES[plane]] = 0.0
+        sub = "in-plane positions, 3-D attitudes"
+    elif u < .35:  # nearly in the plane: tiny out-of-plane offsets must still be zeroed exactly
+        arr["p"][:, PLANES[plane]] = rng.normal(size=n) * 10.0**rng.uniform(-12, -7)
+        sub = "tiny out-of-plane offsets"
     mode = "se3" if rng.random() < .5 else "xyzq"
     stamped = bool(rng.random() < .6)
     run_project(run, case, arr, plane, mode, stamped, planar, headings, bool(rng.random() < .4),
-                ["general 3-D:" + plane, "storage:" + mode],
+                [sub + ":" + plane, "storage:" + mode],
                 {"plane": plane, "n": n, "mode": mode, "classes": arr["cls"]})
 
 
